@@ -2711,7 +2711,7 @@ func registerWrapperRule(id string, props []string, doc string, specs []wrapperS
 		Run: func(c *Ctx) {
 			n := 0
 			for _, sp := range specs {
-				for _, tn := range sevenTypes {
+				for _, tn := range append(append([]string{}, sevenTypes...), "Sequence") {
 					f := c.P.Func("geom.(" + tn + ")." + sp.method)
 					if f == nil {
 						f = c.P.Func("geom.(*" + tn + ")." + sp.method)
@@ -3688,4 +3688,360 @@ func isValuePlusPositive(e, v ssa.Value) bool {
 		return true
 	}
 	return false
+}
+
+// exploration: counting loops and their initial values
+type countLoop struct {
+	h    *ssa.BasicBlock
+	phi  *ssa.Phi
+	init ssa.Value
+	loop map[*ssa.BasicBlock]bool
+}
+
+func countingLoops(f *ssa.Function) []countLoop {
+	var out []countLoop
+	for _, h := range f.Blocks {
+		loop := naturalLoop(h)
+		if loop == nil {
+			continue
+		}
+		for _, in := range h.Instrs {
+			phi, ok := in.(*ssa.Phi)
+			if !ok {
+				break
+			}
+			if bt, ok := phi.Type().Underlying().(*types.Basic); !ok || bt.Info()&types.IsInteger == 0 {
+				continue
+			}
+			var init ssa.Value
+			step := false
+			for k, e := range phi.Edges {
+				if loop[h.Preds[k]] {
+					if bo, ok := e.(*ssa.BinOp); ok && bo.Op == token.ADD && bo.X == ssa.Value(phi) {
+						if kc, ok := constInt(bo.Y); ok && kc == 1 {
+							step = true
+						}
+					}
+				} else {
+					init = e
+				}
+			}
+			if step && init != nil {
+				out = append(out, countLoop{h, phi, init, loop})
+			}
+		}
+	}
+	return out
+}
+
+func dumpCountLoops(c *Ctx) {
+	for _, f := range c.P.Funcs {
+		if !c.P.InRepo(f) {
+			continue
+		}
+		for _, cl := range countingLoops(f) {
+			k, isC := constInt(cl.init)
+			if isC && k == 0 {
+				continue
+			}
+			pos := firstPos(cl.h)
+			for b := range cl.loop {
+				if !pos.IsValid() {
+					pos = firstPos(b)
+				}
+			}
+			fmt.Printf("%s init=%v const=%v %s\n", FuncName(f), cl.init, isC, c.P.Pos(pos))
+		}
+	}
+}
+
+// ---------------------------------------------------------------------------
+// C20.fullrange: loops over elements start at the first element
+// ---------------------------------------------------------------------------
+
+var loopsFromOne = map[string]string{
+	"geom.(LineString).PointOnSurface":      "candidates are the interior control points: the first and last are excluded by design",
+	"geom.(MultiLineString).PointOnSurface": "candidates are the interior control points of each member: first and last excluded by design",
+	"geom.addLineStringInteractions":        "looks at the triple (i-1, i, i+1): interior vertices only",
+	"geom.centroidOfRing":                   "triangle fan from vertex 0: triangles (0, i, i+1)",
+	"geom.densify":                          "inner loop inserts the points strictly between two vertices; the start vertex is copied before it",
+	"geom.firstAndLastLines":                "compares vertex i with vertex i-1",
+	"geom.hasAtLeast2DistinctPointsInSeq":   "compares every later point with point 0",
+	"geom.leftmostThenLowestIndex":          "the running best starts as element 0",
+	"geom.rightmostThenHighestIndex":        "the running best starts as element 0",
+	"geom.sortAndUniquifyFloats":            "compares element i with element i-1; element 0 is always kept",
+	"geom.uniquifyGroupedXYs":               "compares element i with element i-1; element 0 is always kept",
+	"rtree.calculateBound":                  "the bound starts as the box of entry 0",
+}
+
+func init() {
+	register(&Rule{
+		ID:    "C20.fullrange",
+		Props: []string{"C20", "C03", "C09", "C01", "C16"},
+		Doc:   "loops over the elements of a geometry start at the first element: every counting loop (i := c; …; i++) in geom, rtree and carto starts at 0 (a `for range` at its hidden -1), except the reviewed loops that start at 1 for a stated reason (they pair element i with i-1, or treat element 0 before the loop) — and those start at exactly 1. A loop that quietly starts at 1 (or 2) skips the first point, segment, ring or member: the verdict of a validation, an intersection test or a conversion then ignores it",
+		Floor: 150,
+		Run:   runC20FullRange,
+	})
+}
+
+func runC20FullRange(c *Ctx) {
+	n := 0
+	for _, f := range c.P.Funcs {
+		if !c.P.InRepo(f) || strings.Contains(c.P.File(f.Pos()), "dcel_debug.go") {
+			continue
+		}
+		fn := FuncName(rootFunc(f))
+		k := 0
+		for _, cl := range countingLoops(f) {
+			init, isC := constInt(cl.init)
+			if !isC {
+				continue // starts where another loop or computation left off: not this rule's business
+			}
+			n++
+			k++
+			pos := firstPos(cl.h)
+			for _, b := range f.Blocks {
+				if !pos.IsValid() && cl.loop[b] {
+					pos = firstPos(b)
+				}
+			}
+			construct := fmt.Sprintf("counting loop #%d", loopOrdinal(f, cl.h))
+			if init == 0 || init == -1 {
+				c.Triv(pos, FuncName(f), construct, "starts at the first element")
+				continue
+			}
+			if why, ok := loopsFromOne[fn]; ok {
+				c.Check(init == 1, pos, FuncName(f), construct, "starts at 1: "+why, fmt.Sprintf("this reviewed loop starts at 1 because %s — it now starts at %d, skipping element(s)", why, init))
+				continue
+			}
+			// an unreviewed loop: accept only the two idioms, by their shape
+			usesPrev := false
+			for b := range cl.loop {
+				for _, in := range b.Instrs {
+					if bo, ok := in.(*ssa.BinOp); ok {
+						if bo.Op == token.SUB && bo.X == ssa.Value(cl.phi) {
+							if kc, ok := constInt(bo.Y); ok && kc == init {
+								usesPrev = true
+							}
+						}
+					}
+				}
+			}
+			if usesPrev && isNewHelper(rootFunc(f)) {
+				c.OK(pos, FuncName(f), construct, fmt.Sprintf("new helper: starts at %d and pairs element i with element i-%d", init, init))
+				continue
+			}
+			c.Bad(pos, FuncName(f), construct, fmt.Sprintf("the loop starts at %d, not at the first element, and is not one of the reviewed loops that treat the first element separately: the first %d element(s) (point, segment, ring, member) are never looked at", init, init))
+		}
+	}
+	if n < 150 {
+		c.Errorf("only %d counting loops found, expected >= 150", n)
+	}
+}
+
+// ---------------------------------------------------------------------------
+// C07.bboxheader: the header-only envelope reader
+// ---------------------------------------------------------------------------
+
+func init() {
+	register(&Rule{
+		ID:    "C07.bboxheader",
+		Props: []string{"C07"},
+		Doc:   "the header-only bounding-box reader agrees with the header's layout: parseBBoxHeader interpreted for the four dimension combinations on a modelled header (min, delta) per dimension with a different scaling per dimension: X and Y ranges are (min, min+delta) of dimensions 0 and 1, the Z range that of dimension 2 when Z is present, the M range that of dimension 3 (with Z) or 2 (without), each unscaled with ITS OWN dimension's scaling; no range is reported for an absent dimension, and without the bbox flag the envelope is empty",
+		Floor: 1,
+		Run:   runC07BBoxHeader,
+	})
+}
+
+func runC07BBoxHeader(c *Ctx) {
+	f := c.P.Func("geom.(*twkbParser).parseBBoxHeader")
+	if f == nil {
+		c.Errorf("anchor geom.(*twkbParser).parseBBoxHeader does not resolve")
+		return
+	}
+	problem, undec := "", ""
+	models := 0
+	bbox := []float64{3, 5, 14, 6, 44, 12, 136, 48}
+	scal := []float64{1, 2, 4, 8}
+	for mask := 0; mask < 8 && problem == "" && undec == ""; mask++ {
+		hasZ, hasM, hasBBox := mask&1 != 0, mask&2 != 0, mask&4 != 0
+		models++
+		m := &Model{Num: map[string]float64{}, Bool: map[string]bool{"$0.hasZ": hasZ, "$0.hasM": hasM, "$0.hasBBox": hasBBox}, Missing: map[string]bool{}}
+		it := &k4interp{p: c.P, m: m, mem: map[string]k4val{}, inline: func(g *ssa.Function) bool {
+			switch FuncName(g) {
+			case "geom.(*twkbParser).unscale", "geom.NewInterval":
+				return true
+			}
+			return false
+		}}
+		dims := 2
+		if hasZ {
+			dims++
+		}
+		if hasM {
+			dims++
+		}
+		it.mem["$0.bbox"] = k4val{kind: 8, s: "BB", ln: 2 * dims, cp: 2 * dims}
+		for i := 0; i < 2*dims; i++ {
+			it.mem[fmt.Sprintf("BB[%d]", i)] = k4val{kind: 2, f: bbox[i]}
+		}
+		for d := 0; d < 4; d++ {
+			m.Num[fmt.Sprintf("$0.scalings[%d]", d)] = scal[d]
+		}
+		var envArgs []float64
+		envCalls := 0
+		it.onOpaque = func(name string, args []k4val) {
+			if !strings.HasSuffix(name, "NewEnvelope") {
+				return
+			}
+			envCalls++
+			for _, a := range args {
+				if a.kind != 8 {
+					continue
+				}
+				for i := 0; i < a.ln; i++ {
+					for _, fld := range []string{"X", "Y"} {
+						v, e := it.lookup(fmt.Sprintf("%s[%d].%s", a.s, a.off+i, fld), f64T)
+						if e == nil && v.kind == 2 {
+							envArgs = append(envArgs, v.f)
+						}
+					}
+				}
+			}
+		}
+		it.answer = func(key string, isBool bool) (k4val, bool) {
+			if isBool && strings.Contains(key, "parseHeaders(") {
+				return k4val{kind: 1, b: strings.Contains(key, "==nil")}, true
+			}
+			return k4val{}, false
+		}
+		res, err := it.call(f, []k4val{{kind: 3, s: "$0"}}, nil)
+		if err != nil || len(res) != 2 || res[0].kind != 3 {
+			undec = fmt.Sprintf("%v %v %s", err, res, trunc(missingList(m)))
+			break
+		}
+		cfg := fmt.Sprintf("hasZ=%v hasM=%v hasBBox=%v", hasZ, hasM, hasBBox)
+		if res[1].String() != "nil" {
+			problem = cfg + ": returns an error although the headers parsed"
+			break
+		}
+		r := res[0].s
+		rng := func(name string) (lo, hi float64, ne bool, ok bool) {
+			if r == "zero" {
+				return 0, 0, false, true
+			}
+			a, e1 := it.lookup(r+"."+name+".min", f64T)
+			b, e2 := it.lookup(r+"."+name+".max", f64T)
+			n, e3 := it.lookup(r+"."+name+".nonEmpty", boolT)
+			if e3 != nil {
+				return 0, 0, false, false
+			}
+			if !n.b {
+				return 0, 0, false, true
+			}
+			return a.f, b.f, true, e1 == nil && e2 == nil
+		}
+		if !hasBBox {
+			if envCalls != 0 {
+				problem = cfg + ": an envelope is built although the header has no bounding box"
+			}
+			continue
+		}
+		// X/Y
+		want := []float64{3, 7, 8, 10} // (minX, minY), (maxX, maxY)
+		if envCalls != 1 || len(envArgs) != 4 {
+			undec = fmt.Sprintf("%s: the XY envelope is not built by one NewEnvelope call over two points (%d calls, %v)", cfg, envCalls, envArgs)
+			break
+		}
+		// order of the two points is irrelevant to NewEnvelope
+		okXY := (envArgs[0] == want[0] && envArgs[1] == want[1] && envArgs[2] == want[2] && envArgs[3] == want[3]) ||
+			(envArgs[2] == want[0] && envArgs[3] == want[1] && envArgs[0] == want[2] && envArgs[1] == want[3])
+		if !okXY {
+			problem = fmt.Sprintf("%s: XY envelope built from %v, expected corners (3 7) and (8 10) (= min and min+delta of dimensions 0 and 1, each divided by its own scaling)", cfg, envArgs)
+			break
+		}
+		zlo, zhi, zne, ok1 := rng("ZRange")
+		mlo, mhi, mne, ok2 := rng("MRange")
+		if !ok1 || !ok2 {
+			undec = cfg + ": cannot read the Z/M ranges of the result: " + trunc(missingList(m))
+			break
+		}
+		wz := [2]float64{11, 14}
+		wm := [2]float64{17, 23}
+		if !hasZ {
+			wm = [2]float64{11, 14}
+		}
+		if zne != hasZ || (hasZ && (zlo != wz[0] || zhi != wz[1])) {
+			problem = fmt.Sprintf("%s: Z range is (%v %v present=%v), expected (%v %v present=%v)", cfg, zlo, zhi, zne, wz[0], wz[1], hasZ)
+			break
+		}
+		if mne != hasM || (hasM && (mlo != wm[0] || mhi != wm[1])) {
+			problem = fmt.Sprintf("%s: M range is (%v %v present=%v), expected (%v %v present=%v)", cfg, mlo, mhi, mne, wm[0], wm[1], hasM)
+			break
+		}
+	}
+	reportK4(c, f, "ranges from (min, delta) pairs", undec, problem, fmt.Sprintf("every range is (min, min+delta) of its own dimension, unscaled by that dimension's scaling (%d models)", models))
+}
+
+// ---------------------------------------------------------------------------
+// C06.lengths
+// ---------------------------------------------------------------------------
+
+func init() {
+	register(&Rule{
+		ID:    "C06.lengths",
+		Props: []string{"C06", "C08"},
+		Doc:   "the 2D/3D decision of a GeoJSON document sees every position: detectCoordinatesLengths records each position it visits as hasLength[len(position)] = true (every update of the map stores the constant true under a key that is the length of a coordinate slice), there is one such update for each of the six coordinate-carrying node types, and a position shorter than 2 (except the empty Point) is an error",
+		Floor: 6,
+		Run:   runC06Lengths,
+	})
+}
+
+func runC06Lengths(c *Ctx) {
+	f := c.P.Func("geom.detectCoordinatesLengths")
+	if f == nil {
+		c.Errorf("anchor geom.detectCoordinatesLengths does not resolve")
+		return
+	}
+	fn := FuncName(f)
+	n := 0
+	fs := []*ssa.Function{f}
+	eachCall(f, func(ci ssa.CallInstruction) {
+		if cal := staticCallee(ci); cal != nil && isNewHelper(cal) {
+			fs = append(fs, cal)
+		}
+	})
+	for _, g := range fs {
+		eachInstr(g, func(in ssa.Instruction) {
+			mu, ok := in.(*ssa.MapUpdate)
+			if !ok {
+				return
+			}
+			mt, ok := mu.Map.Type().Underlying().(*types.Map)
+			if !ok {
+				return
+			}
+			if kb, ok := mt.Key().Underlying().(*types.Basic); !ok || kb.Kind() != types.Int {
+				return
+			}
+			if vb, ok := mt.Elem().Underlying().(*types.Basic); !ok || vb.Kind() != types.Bool {
+				return
+			}
+			n++
+			construct := fmt.Sprintf("record of a position length #%d", n)
+			b, isB := constBool(mu.Value)
+			keyIsLen := false
+			if call, ok := stripConv(mu.Key).(*ssa.Call); ok {
+				if bi, ok := call.Call.Value.(*ssa.Builtin); ok && bi.Name() == "len" {
+					if _, isSlice := call.Call.Args[0].Type().Underlying().(*types.Slice); isSlice {
+						keyIsLen = true
+					}
+				}
+			}
+			c.Check(isB && b && keyIsLen, mu.Pos(), fn, construct, "hasLength[len(position)] = true", "a visited position is not recorded as hasLength[len(position)] = true: the 2D/3D decision of the document no longer sees it (mixed 2D/3D input may decode as 3D, all-3D input as 2D)")
+		})
+	}
+	if n < 6 {
+		c.Errorf("only %d position-length records found in detectCoordinatesLengths, expected >= 6 (one per coordinate-carrying node type)", n)
+	}
 }
